@@ -29,7 +29,10 @@ namespace BitSerializer
 			auto LastIt = cont.begin();
 			for (auto it = LastIt; it != cont.end() && !arrayScope.IsEnd(); ++it, ++loadedItems)
 			{
-				Serialize(arrayScope, *it);
+				// An existing item that was not loaded (e.g. null) must not keep its previous content
+				if (!Serialize(arrayScope, *it)) {
+					*it = TValue();
+				}
 				LastIt = it;
 			}
 			// Load all left items
